@@ -2,6 +2,7 @@
 
 from __future__ import annotations
 
+import re
 from dataclasses import dataclass, field
 from typing import Any, ClassVar, cast
 
@@ -24,6 +25,62 @@ from nix_manipulator.expressions.trivia import (
     gap_between,
     layout_from_gap,
 )
+
+
+_NIX_IDENTIFIER_RE = re.compile(r"[A-Za-z_][A-Za-z0-9_'\-]*\Z")
+_STRING_ESCAPES = {"n": "\n", "r": "\r", "t": "\t"}
+
+
+def _decode_attr_name(token: str) -> str | None:
+    """Return the attribute name Nix reads from a name token.
+
+    A bare identifier names itself; a quoted token names its decoded string
+    (`"a"` is `a`, `"x\\"y"` is `x"y`). Tokens whose name is not static
+    (interpolation) or that are not a single name token give None.
+    """
+    if len(token) >= 2 and token[0] == '"' and token[-1] == '"':
+        body = token[1:-1]
+        decoded: list[str] = []
+        index = 0
+        while index < len(body):
+            ch = body[index]
+            following = body[index + 1 : index + 2]
+            if ch == "\\":
+                if not following:
+                    return None
+                decoded.append(_STRING_ESCAPES.get(following, following))
+                index += 2
+                continue
+            if ch == '"':
+                return None
+            if ch == "$" and following not in ("", '"', "\\"):
+                if following == "{":
+                    return None
+                # `$$` is literal text: the second `$` cannot open a `${`.
+                decoded.append(ch + following)
+                index += 2
+                continue
+            decoded.append(ch)
+            index += 1
+        return "".join(decoded)
+    if _NIX_IDENTIFIER_RE.match(token):
+        return token
+    return None
+
+
+def _same_attr_name(left: str, right: str) -> bool:
+    """Tell whether two name tokens denote the same attribute for Nix.
+
+    `foo-bar` and `"foo-bar"` are one attribute: lookups must not depend on
+    which spelling the file or the caller happens to use. Names that are not
+    static are only equal to themselves.
+    """
+    if left == right:
+        return True
+    if not isinstance(left, str) or not isinstance(right, str):
+        return False
+    name = _decode_attr_name(left)
+    return name is not None and name == _decode_attr_name(right)
 
 
 def _split_attrpath(text: str) -> list[str]:
